@@ -1091,12 +1091,298 @@ def mon_ll(case, out):
 
 
 
+# ------------------------------------------------------------------------------------------ allocation failures (C14)
+FAIL_TOKENS = {"nomem"}
+
+
+class AdtRefs:
+    """All container references together, with the C14 rule: an operation that reports an allocation failure must
+    leave the abstract value untouched; it may only do so while an injected failure is pending."""
+
+    def __init__(self):
+        self.arr, self.ht, self.buf, self.ll = {}, {}, {}, LlRef()
+        self.armed = False
+
+    def failure(self, t, o):
+        if o == "nomem":
+            return True
+        if t[0] == "ht" and t[1] == "put" and o == "err":
+            kind = self.ht.get(t[2], (None,))[0]
+            return not (kind == "dict" and t[3] == "-")
+        if t[0] == "buf" and t[1] in ("finishbin", "finishstr") and o == "err":
+            return t[2] in self.buf and not self.buf[t[2]].const
+        return False
+
+    def step(self, line, o):
+        """returns (expected answer or None, violation text or None)"""
+        t = line.split()
+        if t[0] == "alloc":
+            if t[1] == "failnth":
+                self.armed = int(t[2]) > 0
+            return None, None
+        if self.failure(t, o):
+            if not self.armed:
+                return None, "%r reported an allocation failure although none was injected" % line
+            self.armed = False
+            if t[0] == "buf" and t[1] in ("be16", "be32"):
+                self.buf.pop(t[2], None)     # a multi-byte append may have been cut short: stop judging this buffer
+            if t[1] in ("new", "const"):
+                {"arr": self.arr, "ht": self.ht, "buf": self.buf}.get(t[0], {}).pop(t[2], None)
+                if t[0] == "ll":
+                    self.ll.lists.pop(int(t[2]), None)
+            return o, None                   # failure accepted: the references stay as they are
+        fam = t[0]
+        if fam == "arr":
+            return self._arr(t), None
+        if fam == "ht":
+            return self._ht(t), None
+        if fam == "buf":
+            cmd, h = t[1], t[2]
+            if cmd == "new":
+                self.buf[h] = BufRef(); return "ok", None
+            if cmd == "const":
+                data = bytes.fromhex(t[3]) if t[3] != "-" else b""
+                if data:
+                    self.buf[h] = BufRef(const=data); return "ok", None
+                self.buf.pop(h, None); return "none", None
+            if h not in self.buf:
+                return None, None
+            exp = self.buf[h].apply([cmd] + t[3:], o)
+            if self.buf[h].unknown or (cmd in ("finishbin", "finishstr") and o != "err"):
+                self.buf.pop(h)
+            return exp, None
+        if fam == "ll":
+            return self.ll.apply(t[1:])[0], None
+        return None, None
+
+    def _arr(self, t):
+        cmd, h = t[1], t[2]
+        a = [int(x) for x in t[3:]]
+        if cmd == "new":
+            self.arr[h] = []; return "ok"
+        if h not in self.arr:
+            return "bad-handle"
+        ref = self.arr[h]
+        if cmd == "ins":
+            if a[0] <= len(ref):
+                ref.insert(a[0], a[1]); return "ok"
+            return "err"
+        if cmd == "insfirst":
+            ref.insert(0, a[0]); return "ok"
+        if cmd == "inslast":
+            ref.append(a[0]); return "ok"
+        if cmd == "setsize":
+            return "err" if a[0] == 0 or a[0] < len(ref) else "ok"
+        if cmd in ("rm", "claim"):
+            if a[0] < len(ref):
+                v = ref.pop(a[0]); return "ok" if cmd == "rm" else str(v)
+            return "err"
+        if cmd == "rmfirst":
+            e = "ok" if ref else "err"; ref[:1] = []; return e
+        if cmd == "rmlast":
+            e = "ok" if ref else "err"; ref[-1:] = []; return e
+        if cmd == "at":
+            return str(ref[a[0]]) if a[0] < len(ref) else "none"
+        if cmd == "len":
+            return str(len(ref))
+        if cmd == "dump":
+            return "[" + " ".join(map(str, ref)) + "]"
+        return None
+
+    def _ht(self, t):
+        cmd, h = t[1], t[2]
+        if cmd == "new":
+            self.ht[h] = (t[3], {}); return "ok"
+        if h not in self.ht:
+            return "bad-handle"
+        kind, ref = self.ht[h]
+        if kind in ("vpvp", "vpstr") and len(t) > 3 and t[3] == "0":
+            return None                                   # F30-C19 is judged by the `ht` stream
+        if cmd == "put":
+            if kind == "dict" and t[3] == "-":
+                return "err"
+            ref[_canon(kind, t[3])] = (t[3], t[4]); return "ok"
+        if cmd == "get":
+            e = ref.get(_canon(kind, t[3])); return e[1] if e else "none"
+        if cmd == "del":
+            return "ok" if ref.pop(_canon(kind, t[3]), None) else "none"
+        if cmd == "count":
+            return str(len(ref))
+        if cmd == "keys":
+            if kind not in HT_KEYS:
+                return "unsupported"
+            if kind == "dict":
+                return "[" + " ".join(_hex(b) for b in sorted(bytes.fromhex(s) if s != "-" else b"" for s, _ in ref.values())) + "]"
+            return "[" + " ".join(str(k) for k in sorted(ref)) + "]"
+        return None
+
+
+def mon_allocfail(case, out):
+    """C14 on the containers: a reported allocation failure leaves the abstract value unchanged (every later
+    observation still matches the reference), failures appear only when injected, and (harness ledger, `!MON leak`)
+    nothing is leaked."""
+    refs = AdtRefs()
+    for line, o in zip(case, out):
+        exp, bad = refs.step(line, o)
+        if bad:
+            return [("alloc-spurious", bad)]
+        if exp is not None and o != exp:
+            return [("alloc-atomic", "after %r the container answered %r, the reference (failed operations have no effect) %r"
+                     % (line, o, exp))]
+    return []
+
+
+def _gen_allocfail(rng, tier, families, ncases_quick, ncases_thorough):
+    ncases = ncases_quick if tier == "quick" else ncases_thorough
+    maxops = 50 if tier == "quick" else 200
+    cases = []
+    for _ in range(ncases):
+        fam = rng.choice(families)
+        ops = []
+        nid = [1]
+
+        def arm():
+            if rng.random() < 0.35:
+                ops.append("alloc failnth %d" % rng.choice([1, 1, 1, 2, 2, 3, 4, 6, 9]))
+
+        def fresh():
+            nid[0] += 1
+            return nid[0] - 1
+
+        if rng.random() < 0.1:
+            ops.append("alloc failnth %d" % rng.randint(1, 3))      # creation itself may fail
+        if fam == "arr":
+            ops.append("arr new 1")
+            ln = 0
+            for _ in range(rng.randint(3, maxops)):
+                r = rng.random()
+                if r < 0.5:
+                    arm()
+                    ops.append(rng.choice(["arr ins 1 %d %d" % (rng.randint(0, ln), fresh()), "arr inslast 1 %d" % fresh(),
+                                           "arr insfirst 1 %d" % fresh()]))
+                    ln += 1           # upper bound is good enough for choosing indexes
+                elif r < 0.6:
+                    arm()
+                    ops.append("arr setsize 1 %d" % rng.choice([1, 4, 5, 8, 9, 16, 17, 33, rng.randint(0, 70)]))
+                elif r < 0.8:
+                    ops.append(rng.choice(["arr rmfirst 1", "arr rmlast 1", "arr rm 1 %d" % rng.randint(0, max(ln, 1))]))
+                    ln = max(ln - 1, 0)
+                elif r < 0.9:
+                    ops.append("arr dump 1")
+                else:
+                    ops.append("alloc count")
+            ops += ["arr dump 1", "arr len 1", "alloc count"]
+        elif fam == "ll":
+            ops += ["ll new 1", "ll new 2"]
+            live = []
+            for _ in range(rng.randint(3, maxops)):
+                r = rng.random()
+                if r < 0.5 or not live:
+                    arm()
+                    n = fresh()
+                    ops.append("ll %s %d %d" % (rng.choice(["insfirst", "inslast"]), rng.randint(1, 2), n))
+                    live.append(n)      # may not exist if the insert failed: then later ops answer bad-handle on both sides
+                elif r < 0.65:
+                    ops.append("ll claim %d" % live.pop(rng.randrange(len(live))))
+                elif r < 0.8:
+                    ops.append("ll %s %d %d" % (rng.choice(["mvfirst", "mvlast"]), rng.choice(live), rng.randint(1, 2)))
+                elif r < 0.9:
+                    ops.append("ll %s %d" % (rng.choice(["dumpf", "dumpb", "len"]), rng.randint(1, 2)))
+                else:
+                    ops.append("alloc count")
+            ops += ["ll dumpf 1", "ll dumpb 1", "ll dumpf 2", "ll len 1", "ll len 2", "alloc count"]
+        elif fam == "buf":
+            ops.append("buf new 1")
+            for _ in range(rng.randint(3, maxops)):
+                r = rng.random()
+                if r < 0.45:
+                    arm()
+                    n = rng.choice([1, 2, 7, 15, 16, 17, 31, 32, 33, 60, 130, rng.randint(1, 90)])
+                    ops.append("buf app 1 %s" % _hex(bytes(rng.randrange(256) for _ in range(n))))
+                elif r < 0.5:
+                    arm()
+                    ops.append(rng.choice(["buf be16 1 %d" % rng.randrange(1 << 16), "buf be32 1 %d" % rng.randrange(1 << 32)]))
+                elif r < 0.65:
+                    ops.append(rng.choice(["buf consume 1 %d", "buf fetch 1 %d"]) % rng.randint(0, 40))
+                elif r < 0.75:
+                    ops.append(rng.choice(["buf tag 1", "buf rollback 1", "buf tagclear 1", "buf reclaim 1"]))
+                elif r < 0.9:
+                    ops.append(rng.choice(["buf len 1", "buf peek 1", "buf tagfetch 1"]))
+                else:
+                    ops.append("alloc count")
+            ops += ["buf len 1", "buf peek 1", "alloc count"]
+            if rng.random() < 0.5:
+                arm()
+                ops += ["buf %s 1" % rng.choice(["finishbin", "finishstr"]), "alloc count"]
+        else:
+            kind = fam
+            strkey, strval = kind in HT_STRKEY, kind in HT_STRVAL
+            ops.append("ht new 1 %s" % kind)
+            if kind == "raw":
+                uni = [str(b + m * 16) for b in rng.sample(range(16), 3) for m in range(rng.randint(2, 8))]
+            elif strkey:
+                uni = list({_hex(_rand_word(rng, 1, 6)) for _ in range(rng.randint(4, 40))})
+            else:
+                uni = [str(k) for k in {rng.randint(1, 1 << 30) for _ in range(rng.randint(4, 40))}]
+
+            def val():
+                return _hex(_rand_word(rng, 1, 5)) if strval else str(rng.randint(1, 1 << 20))
+
+            for _ in range(rng.randint(5, maxops + 20)):
+                r = rng.random()
+                if r < 0.55:
+                    arm()
+                    ops.append("ht put 1 %s %s" % (rng.choice(uni), val()))
+                elif r < 0.7:
+                    ops.append("ht del 1 %s" % rng.choice(uni))
+                elif r < 0.85:
+                    ops.append("ht get 1 %s" % rng.choice(uni))
+                elif r < 0.9:
+                    ops.append("ht count 1")
+                elif r < 0.95 and kind in HT_KEYS:
+                    arm()
+                    ops.append("ht keys 1")
+                else:
+                    ops.append("alloc count")
+            ops.append("alloc failnth 0")
+            for k in uni:
+                ops.append("ht get 1 %s" % k)
+            ops += ["ht count 1", "ht keys 1", "alloc count"]
+        cases.append(ops)
+    return cases
+
+
+def gen_allocfail(rng, tier):
+    """containers whose every allocation the model predicts (array, `raw` hash table, byte buffer, linked list)"""
+    return _gen_allocfail(rng, tier, ["arr", "raw", "raw", "buf", "buf", "ll"], 300, 15000)
+
+
+def gen_allocfail_typed(rng, tier):
+    """the typed hash tables: their seed, hence the number of allocations of an insert, is not predictable, so this
+    stream has no model side; the reference monitor and the allocation ledger judge it"""
+    return _gen_allocfail(rng, tier, ["szvp", "strvp", "asvp", "vpvp", "vpstr", "dict"], 200, 8000)
+
+
+def cmp_no_alloc_count(a, b):
+    n = max(len(a), len(b))
+    for i in range(n):
+        x = a[i] if i < len(a) else "<missing>"
+        y = b[i] if i < len(b) else "<missing>"
+        if x != y:
+            return i
+    return None
+
+
+
 STREAMS = [
     Stream("arr", "h_dsa", "driver_dsa", gen_arr, monitor=mon_arr, timeout=120),
     Stream("ht", "h_dsa", "driver_dsa", gen_ht, monitor=mon_ht, timeout=120),
     Stream("buf", "h_dsa", "driver_dsa", gen_buf, monitor=mon_buf, timeout=120),
     Stream("sl", "h_dsa", "driver_dsa", gen_sl, monitor=mon_sl, timeout=120),
     Stream("ll", "h_dsa", "driver_dsa", gen_ll, monitor=mon_ll, timeout=120),
+    # C14 (container part): single allocation failures injected through ares_library_init_mem
+    Stream("allocfail", "h_dsa", "driver_dsa", gen_allocfail, monitor=mon_allocfail, timeout=120),
+    Stream("allocfail_typed", "h_dsa", None, gen_allocfail_typed, monitor=mon_allocfail, timeout=120),
 ]
 
 LEVEL_TEXT = ("Proof: Lean 4 refinement theorems, for every operation sequence, that the model of each container "
